@@ -20,7 +20,7 @@ RULE = ("kind 0: generated programs (raise site x surrounding statements from a 
         "handling; and 14 shapes of __cause__ / __context__ chain linked after the program raised: plain, self-cause, self-context, cycles "
         "of two by cause / by context, a mixed cycle of three, a cycle behind a link, from None over a context, 3000 links by cause / by "
         "context, a cause with markup in name and message / with a broken __str__ / offering a solution) x 36 messages (incl. CR, FF, "
-        "VT, FS/GS/RS, NEL, U+2028, a final line break, the same escape twice, two and three backslashes before '<') x 16 exception types (two with a broken __str__) x 4 verbosities x UTF-8 "
+        "VT, FS/GS/RS, NEL, U+2028, a final line break, the same escape twice, two and three backslashes before '<') x 20 exception types (two with a broken __str__; SystemExit, KeyboardInterrupt, a BaseException subclass, an ExceptionGroup) x 4 verbosities x UTF-8 "
         "on/off x plain/ANSI x simple/full x 8 ignore patterns (absolute prefix, everything, nothing, relative fragments that re.match "
         "must NOT honour, the program's own file) x working/home directory; kind 1: the highlighter on real Python files of the "
         "repository and the standard library and on generated texts (tab-indented, non-ASCII, 1200 lines, every fourth with CRLF and every "
@@ -45,7 +45,9 @@ MSGS = ["boom", "", "two\nlines", "naïve é λ ✓", "<error>open", "close</err
         # the same escape more than once in one text; several backslashes before a '<'; '<' and a backslash at the very end
         "a\\<b\\<c \\<d>", "two \\\\<b> three \\\\\\<", "<<>> \\<\\< <\\", "x<\\\ny\\<\nz\\"]
 EXCS = ["RuntimeError", "ValueError", "KeyError", "Custom", "MarkupName", "ClosingName", "OSError", "SyntaxError", "Lib",
-        "Sol0", "Sol1", "Sol2", "Sol3", "SolSelf", "StrRaises", "StrNone"]
+        "Sol0", "Sol1", "Sol2", "Sol3", "SolSelf", "StrRaises", "StrNone",
+        # "any type": exceptions that are no Exception (what Application.run does not catch is C04's subject; the report must render)
+        "SystemExit", "KeyboardInterrupt", "BaseCustom", "Group"]
 N_PLAIN_EXCS = 9        # EXCS[9:14] offer solutions, EXCS[14:] have a broken __str__
 STR_FAILED = "<exception str() failed>"      # what the report says instead of a message that cannot be had (as CPython's traceback does)
 # solutions offered by the exception (crashtest ProvidesSolution / Solution): title, description, links
@@ -380,6 +382,14 @@ def make_exc(kind, msg):
         return OSError(2, msg)
     if name == "SyntaxError":
         return SyntaxError(msg, ("some<b>file.py", 3, 1, "x = </b>\n"))
+    if name == "SystemExit":
+        return SystemExit(msg)
+    if name == "KeyboardInterrupt":
+        return KeyboardInterrupt(msg)
+    if name == "BaseCustom":
+        return type("Stop<b>", (BaseException,), {})(msg)
+    if name == "Group":
+        return ExceptionGroup(msg, [ValueError("inner </b>"), KeyError("k")])
     if name == "StrRaises":
         class NoMessage(Exception):
             def __str__(self):
